@@ -147,7 +147,7 @@ PathVerdict(s, e) ==
   ELSE IF r.k = "timeout" THEN "Terminates"
   ELSE LET want == PathAnswer(e.p, G, SToSet(e.s), SToSet(e.o)) IN
        IF SToSet(r.pairs) # want THEN "PathRelation"
-       ELSE IF IsClosure(e.p) /\ Len(r.pairs) # Cardinality(want) THEN "PathNoDuplicates"
+       ELSE IF IsClosure(e.p) /\ e.via # "aggregate" /\ Len(r.pairs) # Cardinality(want) THEN "PathNoDuplicates"     \* (an aggregate enumerates its members' nodes one member after the other: only the relation is judged there)
        ELSE "ok"
 
 Judge(s, cf, e) ==
